@@ -69,7 +69,7 @@ pub fn census(v: &View, aidx: ActorIdx) -> Census {
     let spec = v.sc.spec_of(aidx);
     let has_waiting_timer = |w: &Vec<Work>| w.iter().any(|x| matches!(x, Work::Timer(t) if matches!(t.kind, TimerKind::IntervalWith | TimerKind::DelayedSend)));
     let subscribes = |w: &Vec<Work>| w.iter().any(|x| matches!(x, Work::Subscribe(_)));
-    if (spec.mailbox.is_some() && has_waiting_timer(&spec.on_start)) || subscribes(&spec.on_start) {
+    if (spec.effective_mailbox().is_some() && has_waiting_timer(&spec.on_start)) || subscribes(&spec.on_start) {
         cen.lib_temporaries_possible = true;
     }
     for o in &v.ops {
@@ -78,7 +78,7 @@ pub fn census(v: &View, aidx: ActorIdx) -> Census {
             _ => None,
         };
         if let Some(w) = works {
-            if o.target == Some(aidx) && ((spec.mailbox.is_some() && has_waiting_timer(w)) || subscribes(w)) {
+            if o.target == Some(aidx) && ((spec.effective_mailbox().is_some() && has_waiting_timer(w)) || subscribes(w)) {
                 cen.lib_temporaries_possible = true;
             }
         }
